@@ -152,12 +152,16 @@ pub fn bucket_ratio_distance(ratio: &Big, maint: u128) -> &'static str {
 #[derive(Default, Clone)]
 pub struct FundingShadow {
     ck: BTreeMap<(usize, String), i128>,
+    /// the monitor's own cumulative premium fraction per vAMM: the sum of the changes observed in
+    /// successful PayFunding transactions (nothing else may move it)
+    cum: Vec<i128>,
     pub divergences: u64,
 }
 
 impl FundingShadow {
     pub fn begin(&mut self, s0: &Snap) {
         self.ck.clear();
+        self.cum = s0.vamms.iter().map(|v| v.cum_premium).collect();
         for p in &s0.pos {
             self.ck.insert((p.vamm, p.trader.clone()), p.ckpt);
         }
@@ -165,15 +169,25 @@ impl FundingShadow {
     pub fn get(&self, vamm: usize, trader: &str) -> Option<i128> {
         self.ck.get(&(vamm, trader.to_string())).cloned()
     }
+    pub fn cum(&self, vamm: usize) -> Option<i128> {
+        self.cum.get(vamm).cloned()
+    }
     pub fn observe(&mut self, w: &World, st: &Step) {
         let post = &st.post;
+        if let Op::Engine { msg: eng::ExecuteMsg::PayFunding { vamm }, .. } = &st.op {
+            if st.out.ok {
+                if let Some(i) = w.vamm_idx(vamm) {
+                    self.cum[i] += post.vamms[i].cum_premium - st.pre.vamms[i].cum_premium;
+                }
+            }
+        }
         let gone: Vec<(usize, String)> = self.ck.keys().filter(|k| post.pos(k.0, &k.1).is_none()).cloned().collect();
         for k in gone {
             self.ck.remove(&k);
         }
         for p in &post.pos {
             let key = (p.vamm, p.trader.clone());
-            let cum = post.vamms[p.vamm].cum_premium;
+            let cum = self.cum.get(p.vamm).cloned().unwrap_or(post.vamms[p.vamm].cum_premium);
             if st.pre.pos(p.vamm, &p.trader).is_none() {
                 // created by this transaction: nothing accrued before
                 self.ck.insert(key, cum);
@@ -201,6 +215,12 @@ pub fn pos_view_sh(w: &World, snap: &Snap, vamm: usize, trader: &str, sh: &mut F
             sh.divergences += 1;
         }
         v.pos.ckpt = c;
+    }
+    if let Some(c) = sh.cum(vamm) {
+        if c != v.cum {
+            sh.divergences += 1;
+        }
+        v.cum = c;
     }
     Some(v)
 }
